@@ -193,9 +193,12 @@ class _CommonVisitors(visitor.NodeVisitor):
     def visit_Call(self, node: ast.Call) -> ClauseElement:
         ":meta private:"
         try:
-            handler = getattr(self, "func_" + node.func.name.lower())
+            # Functions in a namespace (e.g. `geo.length`) are different functions
+            # than their un-namespaced namesakes (e.g. `length`):
+            func_name = node.func.full_name().replace(".", "__")
+            handler = getattr(self, "func_" + func_name.lower())
         except AttributeError:
-            raise ex.UnsupportedFunctionException(node.func.name)
+            raise ex.UnsupportedFunctionException(node.func.full_name())
 
         return handler(*node.args)
 
